@@ -528,7 +528,14 @@ impl Scratch {
     }
     pub fn with_mode(vfs: bool) -> Scratch {
         let n = DIR_COUNTER.fetch_add(1, Ordering::SeqCst);
-        let path = scratch_base().join(format!("d{}", n));
+        // (the directory name is deliberately not valid UTF-8: the library gets a `Path`, and must
+        // not take a detour through a lossy string)
+        let path = {
+            use std::os::unix::ffi::OsStrExt;
+            let mut name = b"d\xe9-".to_vec();
+            name.extend_from_slice(n.to_string().as_bytes());
+            scratch_base().join(std::ffi::OsStr::from_bytes(&name))
+        };
         std::fs::create_dir_all(&path).expect("create scratch dir");
         if vfs {
             vh::fs::vfs_enable(&path);
